@@ -262,12 +262,21 @@ def cmd_check(pid, tier, seed, opts):
         if r.get("status") in ("stale", "outside-subset") or any(o["result"] == "unknown" for o in r.get("obligations", [])):
             esc.append(key)
     if esc:
-        with mp.get_context("fork").Pool(min(nproc, len(esc))) as pool2:
-            for (kind, key, r) in pool2.map(_task, [("C", k, "large", seed, opts) for k in esc]):
+        pool2 = mp.get_context("fork").Pool(min(nproc, len(esc)), maxtasksperchild=1)
+        try:
+            hs = [(k, pool2.apply_async(_task, (("C", k, "large", seed, opts),))) for k in esc]
+            dl = time.time() + float(os.environ.get("VERIF_ESCALATION_CAP_S", "240"))
+            for key, h in hs:
+                try:
+                    (_kind, _key, r) = h.get(timeout=max(1.0, dl - time.time()))
+                except mp.TimeoutError:
+                    continue            # one large case did not finish inside the cap: nothing learned, stays undecided
                 if r.get("failures"):
                     C[key] = r
                 elif key in C:
                     C[key]["escalated"] = {"evaluations": r.get("accepted", 0), "wall_s": r.get("wall_s")}
+        finally:
+            pool2.terminate()
     obligations, discharged, samples, undecided, errors = 0, 0, [], [], []
     funcs, trusted_funcs, bounded_only = [], [], []
     failed_obls = []
